@@ -17,6 +17,13 @@ import ZapVerif.Model.TransJsonEncX
 import ZapVerif.Model.TransConsoleX
 import ZapVerif.Model.TransSlogX
 import ZapVerif.Model.TransOpenX
+import ZapVerif.Model.TransLevelX
+import ZapVerif.Model.TransMessageX
+import ZapVerif.Model.TransDeriveX
+import ZapVerif.Model.TransCtorX
+import ZapVerif.Model.TransWritersX
+import ZapVerif.Model.TransStackFmtX
+import ZapVerif.Model.TransGrpcX
 import ZapVerif.Model.Entry
 import ZapVerif.Gen.TransProbe
 /-! `zvdrv CTR`: the interpreter side of the translator's differential test.  An op names a generated table and a
@@ -147,6 +154,15 @@ def probeExt : String → List Val → Option (List Val)
   | "probe.note", [.int x] => some [.int (x + 1)]
   | "probe.done", [] => some []
   | "ProbeFn", [.int k, .int x] => some [.int (k * x + 1)]
+  -- round 4 (harness/cmd/zvh/trans_probe4.go)
+  | "bytes.ToLower", [.bytes t] => some [.bytes (ZapVerif.OpenBuild.lowerBytes t)]
+  | "probe.fill", [.int k, _] =>
+      some [.list [if k % 2 = 0 then .list [.int (k * 3)] else .list []], .bool (decide (Int.tmod k 3 = 0))]
+  | "probe.asInt", [.list [.int 0, .int n]] => some [.int n, .bool true]
+  | "probe.asInt", [_] => some [.int 0, .bool false]
+  | "probe.asString", [.list [.int 1, .bytes s]] => some [.bytes s, .bool true]
+  | "probe.asString", [_] => some [.bytes [], .bool false]
+  | "probe.write", [.bytes b, .bytes s] => some [.bytes (b ++ s)]
   | _, _ => none
 
 /-- the argument encoding of harness/cmd/zvh/trans_sweeten.go: `[0, key]` Field, `[1, id]` error, `[2, s]` string, anything
@@ -257,7 +273,77 @@ def openPar : ZapVerif.TransOpen.Par :=
     newEncoder := fun _ _ => ([], []), keys := fun _ => [], mapGet := fun _ _ => .list [], sort := id,
     toLower := ZapVerif.OpenBuild.lowerBytes }
 
+/-- the parameters of the level context (harness/cmd/zvh/trans_level.go): ASCII texts, so `bytes.ToLower` is byte-wise
+    lowering; `fmt.Sprintf(f, l)` puts the decimal text of `l` where `f` has `%d`; an enabler is
+    `[kind, level, enabled levels]`, kind 1 knows its level -/
+def levelPar : ZapVerif.TransLevel.Par :=
+  { lower := ZapVerif.OpenBuild.lowerBytes,
+    sprintf := fun f l => f.takeWhile (· != 37) ++ ZapVerif.Entry.fmtInt l ++ (f.dropWhile (· != 37)).drop 2,
+    asLeveled := fun e => match e with | .list (.int 1 :: _) => some e | _ => none,
+    leveledLevel := fun e => match e with | .list [_, .int l, _] => l | _ => 0,
+    enabled := fun e l => match e with
+      | .list [_, _, .list ls] => ls.any (fun v => match v with | .int x => x == l | _ => false)
+      | _ => false,
+    formValue := fun _ _ => [], headerGet := fun _ _ => [], jsonDecode := fun _ => ([], []), errText := fun _ => [],
+    encodeErr := fun _ _ => [] }
+
+/-- the parameters of the message context (harness/cmd/zvh/trans_message.go): what `fmt` makes of THE argument list is
+    handed over in pseudo-fields; `.(string)` answers the encoding `[2, s]`; the core enables the levels in `#en`; `Check`
+    answers the entry `[1]` iff the level is enabled; the context is sweetened by the sweep proved about `sweetenFields` -/
+def messagePar (e : Env) : ZapVerif.TransMessage.Par :=
+  let b : String → Bytes := fun k => match e.get k with | some (.bytes x) => x | _ => []
+  { sprint := fun _ => b "#sprint", sprintf := fun _ _ => b "#sprintf", sprintln := fun _ => b "#sprintln",
+    asStr := fun v => match v with | .list [.int 2, .bytes s] => some s | _ => none,
+    cen := enabledOf e,
+    check := fun _ l _ => if enabledOf e l then [.int 1] else [],
+    sweeten := fun c => (ZapVerif.TransSweeten.sweepV sweetenPar 0 false c).fields }
+
+/-- the parameters of the constructor context (harness/cmd/zvh/trans_ctor.go): cores and enablers are the values
+    `[kind, level, enabled levels]` of `levelPar`; `LevelOf` is the scan proved about the source -/
+def ctorPar : ZapVerif.TransCtor.Par :=
+  { cen := levelPar.enabled, en := levelPar.enabled,
+    levelOf := fun e => match levelPar.asLeveled e with
+      | some lv => levelPar.leveledLevel lv
+      | none => (([-1, 0, 1, 2, 3, 4, 5] : List Int).find? (levelPar.enabled e)).getD 6,
+    nop := .list [.bytes "nop".toUTF8.toList] }
+
+/-- the parameters of the writers context (harness/cmd/zvh/trans_writers.go): ASCII payloads, so the trims are byte-wise;
+    a writer is `[kind, id]`: 0 a plain writer, 1 a WriteSyncer, 2 an already locked syncer -/
+def isAsciiSpace (b : UInt8) : Bool := b == 9 || b == 10 || b == 11 || b == 12 || b == 13 || b == 32
+def writersPar : ZapVerif.TransWriters.Par :=
+  { trimSpace := fun p => ((p.dropWhile isAsciiSpace).reverse.dropWhile isAsciiSpace).reverse,
+    trimRight := fun p cut => (p.reverse.dropWhile fun b => cut.contains b).reverse,
+    asWS := fun w => match w with | .list [.int 0, _] => none | _ => some w,
+    isLocked := fun w => match w with | .list [.int 2, _] => true | _ => false }
+
+/-- the parameters of the derivation context (harness/cmd/zvh/trans_derive.go): `With(fields)` of a scripted core is
+    `["with", core, fields]`; options are `[0, v]` AddCallerSkip, `[1, _]` Development, `[2, v]` WrapCore(c ↦ ["wrap", c, v]) and
+    the `WrapCore(closure)` of `WithLazy`, whose core is read back as `["lazy", core, fields]`; `Enabled(l)` is `l ≥ 0`;
+    `Check` adds the core; `Write` / `Sync` succeed -/
+def dnm (s : String) : Val := .bytes s.toUTF8.toList
+def derivePar : ZapVerif.TransDerive.Par :=
+  { coreWith := fun c fs => .list [dnm "with", c, fs],
+    applyOpt := fun opt st => match opt with
+      | .list [.int 0, .int v] => { st with callerSkip := match st.callerSkip with | .int n => .int (n + v) | x => x }
+      | .list [.int 1, _] => { st with development := .bool true }
+      | .list [.int 2, v] => { st with core := .list [dnm "wrap", st.core, v] }
+      | .list [.bytes _, .list [_, fields]] => { st with core := .list [dnm "lazy", st.core, fields] }
+      | _ => st,
+    encClone := fun e => .list [dnm "clone", e],
+    addFields := fun e fs => .list [dnm "add", e, fs],
+    cen := fun _ l => decide (l ≥ 0),
+    chk := fun c _ _ => .list [.list [c]],
+    werr := fun _ _ _ => [], serr := fun _ => [] }
+
 def tables : List (String × (Env → Ctx)) := [
+  ("TransGrpc", fun e => ZapVerif.TransGrpc.X
+      { sprintln := fun _ => (match e.get "#sprintln" with | some (.bytes x) => x | _ => []), en := fun _ l => enabledOf e l }),
+  ("TransStackFmt", fun _ => ZapVerif.TransStackFmt.X),
+  ("TransDerive", fun _ => ZapVerif.TransDerive.X derivePar),
+  ("TransWriters", fun _ => ZapVerif.TransWriters.X writersPar),
+  ("TransCtor", fun _ => ZapVerif.TransCtor.X ctorPar),
+  ("TransMessage", fun e => ZapVerif.TransMessage.X (messagePar e)),
+  ("TransLevel", fun _ => ZapVerif.TransLevel.X levelPar),
   ("TransProbe", fun _ => { ext := probeExt, funs := ZapVerif.Gen.TransProbe.funs }),
   ("TransJsonSep", fun _ => ZapVerif.TransJsonSep.X),
   ("TransSampler", fun e => ZapVerif.TransSampler.X (enabledOf e)),
